@@ -93,12 +93,12 @@ macro_rules! add {
 pub fn registry() -> Vec<TypeEntry> {
     let mut v: Vec<TypeEntry> = Vec::new();
     add!(v, "Vector1", Vector1<f32>, Vector1<f64>, Vector1<i32>, Vector1<u8>, Vector1<i64>, Vector1<u64>);
-    add!(v, "Vector2", Vector2<f32>, Vector2<f64>, Vector2<i32>, Vector2<u8>, Vector2<i64>, Vector2<u64>, Vector2<u128>, Vector2<isize>);
-    add!(v, "Vector3", Vector3<f32>, Vector3<f64>, Vector3<i32>, Vector3<u8>, Vector3<i64>, Vector3<u64>, Vector3<i8>, Vector3<i16>, Vector3<u16>, Vector3<u32>, Vector3<isize>, Vector3<usize>, Vector3<i128>, Vector3<u128>, Vector3<Rad<f32>>, Vector3<Deg<f64>>);
+    add!(v, "Vector2", Vector2<f32>, Vector2<f64>, Vector2<i32>, Vector2<u8>, Vector2<i64>, Vector2<u64>, Vector2<u128>, Vector2<isize>, Vector2<Rad<f32>>, Vector2<Quaternion<f64>>, Vector2<Vector2<f64>>);
+    add!(v, "Vector3", Vector3<f32>, Vector3<f64>, Vector3<i32>, Vector3<u8>, Vector3<i64>, Vector3<u64>, Vector3<i8>, Vector3<i16>, Vector3<u16>, Vector3<u32>, Vector3<isize>, Vector3<usize>, Vector3<i128>, Vector3<u128>, Vector3<Rad<f32>>, Vector3<Deg<f64>>, Vector3<Matrix2<f32>>);
     add!(v, "Vector4", Vector4<f32>, Vector4<f64>, Vector4<i32>, Vector4<u8>, Vector4<i64>, Vector4<u64>, Vector4<Rad<f64>>);
-    add!(v, "Point1", Point1<f32>, Point1<f64>, Point1<i32>, Point1<u8>, Point1<i64>, Point1<u64>);
-    add!(v, "Point2", Point2<f32>, Point2<f64>, Point2<i32>, Point2<u8>, Point2<i64>, Point2<u64>, Point2<Deg<f32>>);
-    add!(v, "Point3", Point3<f32>, Point3<f64>, Point3<i32>, Point3<u8>, Point3<i64>, Point3<u64>, Point3<i128>, Point3<usize>);
+    add!(v, "Point1", Point1<f32>, Point1<f64>, Point1<i32>, Point1<u8>, Point1<i64>, Point1<u64>, Point1<Matrix2<f64>>);
+    add!(v, "Point2", Point2<f32>, Point2<f64>, Point2<i32>, Point2<u8>, Point2<i64>, Point2<u64>, Point2<Deg<f32>>, Point2<Quaternion<f64>>);
+    add!(v, "Point3", Point3<f32>, Point3<f64>, Point3<i32>, Point3<u8>, Point3<i64>, Point3<u64>, Point3<i128>, Point3<usize>, Point3<Vector4<f64>>);
     add!(v, "Matrix2", Matrix2<f32>, Matrix2<f64>, Matrix2<i32>, Matrix2<isize>, Matrix2<u128>, Matrix2<Rad<f32>>);
     add!(v, "Matrix3", Matrix3<f32>, Matrix3<f64>, Matrix3<i32>);
     add!(v, "Matrix4", Matrix4<f32>, Matrix4<f64>, Matrix4<i32>);
